@@ -289,6 +289,8 @@ func genSynthExperiment(r *rand.Rand, pool []*genetics.Genome) *synthExperiment 
 	plateau := !negHuge && r.Intn(6) == 0
 	// the marker the library records as complexity when the phenotype of a species' best organism can not be built
 	unknownComplexity := r.Intn(6) == 0
+	// records put together outside Execute: the generations carry no execution time (the zero time)
+	neverStamped := r.Intn(7) == 0
 	for ti := 0; ti < nt; ti++ {
 		tr := experiment.Trial{Id: ti}
 		ng := r.Intn(7)
@@ -319,6 +321,9 @@ func genSynthExperiment(r *rand.Rand, pool []*genetics.Genome) *synthExperiment 
 			org.Error = r.Float64()
 			gen := experiment.Generation{Id: gi, TrialId: ti, Champion: org, Solved: gi == solvedAt, Diversity: 1 + r.Intn(6),
 				Executed: time.Unix(int64(100000+ti*100+gi), 0).UTC(), Duration: time.Duration(1 + r.Intn(100000))}
+			if neverStamped {
+				gen.Executed = time.Time{}
+			}
 			k := gen.Diversity
 			gen.Fitness, gen.Age, gen.Complexity = make(experiment.Floats, k), make(experiment.Floats, k), make(experiment.Floats, k)
 			for i := 0; i < k; i++ {
